@@ -291,7 +291,11 @@ pub(crate) fn zero_padded_i(number: i32, length: usize) -> String {
 
 /// Formats a number as a zero padded string
 pub(crate) fn zero_padded(number: u32, length: usize) -> String {
-    format!("{:0width$}", number, width = length)
+    // Not `format!("{:0width$}")`: a run of symbols can be longer than the widest supported format width
+    let digits = number.to_string();
+    let mut padded = "0".repeat(length.saturating_sub(digits.len()));
+    padded.push_str(&digits);
+    padded
 }
 
 /// Determines length of formatting part based on actual, default and max length
